@@ -11,6 +11,11 @@ VARIANTS = {
     "sec": dict(HIST, mi_flags=["-O2", "-DNDEBUG", "-DMI_SECURE=4"], harness_flags=["-DVF_PADDING", "-DVF_SECURE_BUILD"]),
 }
 
+SCHED = {"harness": "sched", "harness_src": "sched.cc"}
+HOOK = ["-DMI_VERIF_HOOKS=\"/verif/hooks/mi_verif_hooks.h\"", "-DMI_STAT=0"]
+VARIANTS["sched-dbg"] = dict(SCHED, mi_flags=["-O1", "-g", "-DMI_DEBUG=2"] + HOOK, harness_flags=["-DVF_DEBUG_BUILD"])
+VARIANTS["sched-rel"] = dict(SCHED, mi_flags=["-O2", "-DNDEBUG"] + HOOK, harness_flags=[])
+
 COMMON_ASSUME = [
     "Linux x86-64, 4 KiB OS pages, glibc; mimalloc compiled as the single TU src/static.c from /repo's working tree",
     "OS calls, clock and getrandom reach the kernel through the vf_* shim (pass-through unless a case arms it)",
@@ -159,3 +164,56 @@ CHECKS["C17"] = hist_check("C17",
     [R("sec", 12000, 200000, 1.0), R("dbg", 5000, 60000, 1.0)],
     assumptions=["a forged link that decodes into the same page (probability about 2^-47 per case) would be followed by design; not classified white-box, treated as undetected if it ever happened",
                  "blocks whose requested size changed (in-place realloc/expand), aligned or zero-chain blocks are not used for the overflow misuse: their canary does not sit at the requested size"])
+
+SCHED_ASSUME = [
+    "interleavings are sequentially consistent at the granularity of mimalloc's atomic operations (plus spurious weak-CAS failures); weaker hardware orderings and races on plain fields are outside what the scheduler produces",
+    "virtual threads are real pthreads run one at a time; every virtual thread ends with mi_thread_done() while scheduled (what the pthread-key destructor calls)",
+    "programs have 2-3 threads and at most ~60 operations; single preemptions are enumerated densely up to a cap per program and strided beyond, multi-preemption schedules are sampled",
+    "a step or spin limit hit is recorded as inconclusive (skipped), never as a violation",
+]
+def sched_check(mode, rule, q, t, budget=None):
+    return {"level": "exploration", "rule": rule, "runs": [dict(R("sched-dbg", q, t, 1.0), mode=mode), dict(R("sched-rel", q, t, 1.0), mode=mode)],
+            "budget_s": budget or {"quick": 60, "thorough": 900}, "assumptions": COMMON_ASSUME[:2] + SCHED_ASSUME}
+
+CHECKS["C02"] = sched_check("C02",
+    "cases = (program, schedule): programs of 2-3 threads from a grammar (allocate a class into a shared slot, free a slot allocated by any thread, collect, verify; classes 16 B-1 MiB "
+    "so that pages fill at once or are single-block), ordered by a global rank so that waits cannot cycle; per program: the baseline, every single preemption (step x target thread; dense "
+    "then strided), sampled 2-5 preemption schedules biased to steps on addresses shared between threads, random priorities and 1-3 spurious weak-CAS failures. Oracle: shadow model "
+    "evaluated between scheduling points (a new block overlaps no live block of any thread, contents intact at free/verify), no allocator error report, no crash/assert, no livelock, "
+    "and at the end nothing is left in any heap. Non-trivial = a thread was preempted inside an allocator call and, before it resumed, another thread performed a write/RMW on an "
+    "atomic location that the preempted call also accesses. Distinct = hash of (program IR + schedule).",
+    60000, 1500000)
+
+CHECKS["C08"] = sched_check("C08",
+    "cases = (program, schedule). (a) quiescence programs: an owner thread allocates blocks of classes that fill pages (16 B-1 MiB; single-block pages sit in the full queue at once), "
+    "1-2 other threads free them in generated order while the owner interleaves malloc/free/collect; schedules as in C02 (all single preemptions, sampled multi-preemption schedules "
+    "biased to shared addresses, spurious weak-CAS failures). Oracle: after everything was freed by whichever thread and the owner force-collects, its heap reports no used block; at the "
+    "very end nothing is left anywhere (main-thread collect, abandoned walk, no OS segment mapped). (b) bounded producer/consumer runs of 200-1500 rounds with at most 1/4/16/64 blocks in "
+    "flight (generic_collect raised so that the periodic collect cannot mask a leak): the number of areas of the producing heap sampled 20 times does not grow from the first to the second "
+    "half by more than 2 and stays below 4+4*ceil(live/blocks-per-page). Non-trivial = (a) a remote free happened, the §4.3 conflict rule holds (preempted inside a call + conflicting "
+    "write by another thread) and the quiescence clause was evaluated, or (b) a producer/consumer run of >= 600 rounds completed. Distinct = hash of (program IR + schedule).",
+    60000, 1500000)
+
+CHECKS["C09"] = sched_check("C09",
+    "cases = (program, schedule): threads end (mi_thread_done, scheduled) at generated positions with some of their blocks still live; other threads verify, free those blocks later, allocate "
+    "(which reclaims abandoned segments) and collect; options abandoned_reclaim_on_free 0/1, disallow_arena_alloc (OS-allocated segments, abandoned_os_list), visit_abandoned, "
+    "max_segment_reclaim 0/100, abandoned_page_purge; schedules as in C02. Oracle: shadow model across threads (contents survive the owner's exit, a block is never handed out while live: "
+    "double adoption would show as overlap), no allocator error report; at quiescence (every block freed, main thread force-collects which reclaims all) the main heap holds no used block, "
+    "mi_abandoned_visit_blocks reports nothing and no OS-allocated segment is still mapped. Non-trivial = a thread ended with live blocks and one of them was later freed by another thread "
+    "(remote free into an abandoned segment / reclaim). Distinct = hash of (program IR + schedule).",
+    60000, 1500000)
+
+CHECKS["C14"] = sched_check("C14",
+    "cases = (program, schedule), two levels. (a) bitmap level: a private bitmap of 2-4 fields with generated pre-claimed bits (left-over style top bits, low bits, sparse) and 2-3 threads "
+    "running scripts of _mi_bitmap_try_find_from_claim_across(count in {1,2,3,...,63,64,65,70,127,128,129}) and _mi_bitmap_unclaim_across; oracle: a reference bit set updated at every "
+    "successful claim/release (range inside the map, every bit free before, no overlap with any held range), and when all threads are done every field equals pre-claimed | still-held. "
+    "(b) arena level: a 2-4 GiB exclusive managed arena (66-130 blocks, i.e. at least 2 bitmap fields), each thread allocates/frees blocks of 1-5 segments and small objects through an "
+    "arena-bound heap with purge_delay 0/1/10 and clock ticks; oracle: blocks disjoint and inside the arena; after all frees and a forced collect the arena accepts exactly block_count "
+    "one-block allocations again. Schedules as in C02. Non-trivial = a claim crossed a field boundary and the §4.3 conflict rule held. Distinct = hash of (program IR + schedule).",
+    40000, 1000000)
+
+CHECKS["C10"]["runs"] += [dict(R("sched-dbg", 30000, 600000, 1.0), mode="C10"), dict(R("sched-rel", 30000, 600000, 1.0), mode="C10")]
+CHECKS["C10"]["budget_s"] = {"quick": 100, "thorough": 1200}
+CHECKS["C10"]["rule"] += (" Sched runs: (program, schedule) cases in which an owner creates a heap, fills pages of it, and deletes / collects it while 1-2 other threads free blocks of that heap "
+    "(schedules as in C02); oracle = C02 model + nothing lost at quiescence + no livelock; non-trivial there = the conflict rule held in a case with a heap delete/collect.")
+CHECKS["C10"]["assumptions"] += SCHED_ASSUME
